@@ -473,7 +473,46 @@ Fixpoint recover (fuel nconn : nat) (s : state) (i ups : nat) : option (state * 
       end
   end.
 
-Fixpoint auth_acts (nconn : nat) (acts : list sx) (s : state) (i ups : nat) (outs : list sx)
+(* one call while some connection is in a black hole: it fails at once on a
+   connection that is dead or Connecting, expires on one whose server is silent,
+   is answered elsewhere *)
+Definition probe1 (nconn : nat) (s : state) (i : nat) (mute : list nat) : option (state * sx * nat) :=
+  match exec nconn qid s [LRegister i; LPick i] with
+  | Some s1 =>
+      match picked_conn (pc s1 i) with
+      | Some k =>
+          if negb (status s1 k) || broken s1 k then
+            match exec nconn qid s1 [LSendFail i; LUnregister i] with
+            | Some s2 => Some (s2, out_result (pc s2 i), k)
+            | None => None
+            end
+          else if existsb (Nat.eqb k) mute then
+            match exec nconn qid s1 [LSendOk i; LTimeout i; LUnregister i] with
+            | Some s2 => Some (s2, out_result_ctx [(i, 1%N)] i (pc s2 i), k)
+            | None => None
+            end
+          else
+            match exec nconn qid s1 [LSendOk i; LEmit k (PAnswer (qid i) 0); LDeliver k; LRecv i; LUnregister i] with
+            | Some s2 => Some (s2, out_result (pc s2 i), k)
+            | None => None
+            end
+      | None => None
+      end
+  | None => None
+  end.
+
+(* calls until one fails on the reset connection k: that starts reconnect() *)
+Fixpoint until_fail (fuel nconn : nat) (s : state) (i k : nat) (mute : list nat) : option (state * nat) :=
+  match fuel with
+  | O => None
+  | S f =>
+      match probe1 nconn s i mute with
+      | Some (s1, _, k') => if Nat.eqb k' k then Some (s1, S i) else until_fail f nconn s1 (S i) k mute
+      | None => None
+      end
+  end.
+
+Fixpoint auth_acts (nconn : nat) (acts : list sx) (s : state) (i ups : nat) (outs : list sx) (mute : list nat)
   : option (list sx * nat) :=
   match acts with
   | [] => Some (rev outs, ups)
@@ -485,7 +524,7 @@ Fixpoint auth_acts (nconn : nat) (acts : list sx) (s : state) (i ups : nat) (out
             match picked_conn (pc s1 i) with
             | Some k =>
                 match exec nconn qid s1 [LSendOk i; LEmit k (PAnswer (qid i) 0); LDeliver k; LRecv i; LUnregister i] with
-                | Some s2 => auth_acts nconn t s2 (S i) ups (out_result (pc s2 i) :: outs)
+                | Some s2 => auth_acts nconn t s2 (S i) ups (out_result (pc s2 i) :: outs) mute
                 | None => None
                 end
             | None => None
@@ -494,22 +533,52 @@ Fixpoint auth_acts (nconn : nat) (acts : list sx) (s : state) (i ups : nat) (out
         end
       else if is "silent" then   (* not answered: the client timeout ends it *)
         match exec nconn qid s [LRegister i; LPick i; LSendOk i; LTimeout i; LUnregister i] with
-        | Some s2 => auth_acts nconn t s2 (S i) ups (out_result_ctx [(i, 1%N)] i (pc s2 i) :: outs)
+        | Some s2 => auth_acts nconn t s2 (S i) ups (out_result_ctx [(i, 1%N)] i (pc s2 i) :: outs) mute
         | None => None
         end
       else if is "drop" then
         match args with
         | SN k :: _ => match step nconn qid s (LDrop (small k)) with
-                       | Some s2 => auth_acts nconn t s2 i ups outs
+                       | Some s2 => auth_acts nconn t s2 i ups outs mute
                        | None => None
                        end
         | _ => None
         end
       else if is "recover" then
         match recover 64 nconn s i ups with
-        | Some (s2, i2, ups2) => auth_acts nconn t s2 i2 ups2 (SA "up" :: outs)
+        | Some (s2, i2, ups2) => auth_acts nconn t s2 i2 ups2 (SA "up" :: outs) mute
         | None => None
         end
+      else if is "blackhole" then   (* reset k; its reconnect falls into a hole of the given phase *)
+        match args with
+        | [SN k; SN ph] =>
+            let k := small k in
+            match step nconn qid s (LDrop k) with
+            | Some s1 =>
+                match until_fail 64 nconn s1 i k mute with
+                | Some (s2, i2) =>
+                    if N.eqb ph 3
+                    then match exec nconn qid s2 [LReconnectEnter k; LReconnectDone k] with
+                         | Some s3 => auth_acts nconn t s3 i2 (S ups) outs (k :: mute)   (* handshake answered, then silence *)
+                         | None => None
+                         end
+                    else match exec nconn qid s2 [LReconnectEnter k] with
+                         | Some s3 => auth_acts nconn t s3 i2 ups outs mute              (* the attempt hangs in the handshake *)
+                         | None => None
+                         end
+                | None => None
+                end
+            | None => None
+            end
+        | _ => None
+        end
+      else if is "probe" then
+        match probe1 nconn s i mute with
+        | Some (s2, o, _) => auth_acts nconn t s2 (S i) ups (o :: outs) mute
+        | None => None
+        end
+      else if is "dialhole" then    (* NewConnection with a short context against a black hole: an error *)
+        auth_acts nconn t s i ups (SA "err" :: outs) mute
       else None
   | _ => None
   end.
@@ -519,7 +588,7 @@ Definition run_auth (a : sx) : sx :=
   match a with
   | SL [SN nc; SN au; SL acts] =>
       let nconn := small nc in
-      match auth_acts nconn acts init_state 0 0 [] with
+      match auth_acts nconn acts init_state 0 0 [] [] with
       | Some (outs, ups) =>
           let conns := nconn + ups in
           SL [SL outs; sx_nat conns; sx_nat (if N.eqb au 0 then 0 else conns)]
